@@ -36,8 +36,11 @@ class Handler:
 class Case:
     """One observer + scratch paths; executes API calls under a watchdog and audits at the end."""
 
-    def __init__(self, kind="inotify", led=None, tree_dirs=2, timeout=None):
+    def __init__(self, kind="inotify", led=None, tree_dirs=2, timeout=None, follow=False):
         self.kind = kind
+        # follow: the recursive watch on p2 follows symbolic links and p2 holds links that resolve to p2 itself (p2/self -> . or
+        # p2/s0/up -> ..): the kernel answers the root's own watch descriptor for those aliases
+        self.follow = follow and kind == "inotify"
         self.timeout = timeout
         self.led = led
         self.base = tempfile.mkdtemp(prefix="wdv-api-")
@@ -51,6 +54,12 @@ class Case:
         for i in range(tree_dirs):
             d = os.path.join(d, f"s{i}")
             os.mkdir(d)
+        if self.follow:
+            # one alias only: with two the number of paths the library's os.walk(followlinks=True) visits before ELOOP is exponential
+            if follow == "up" and tree_dirs:
+                os.symlink("..", os.path.join(self.paths["p2"], "s0", "up"))
+            else:
+                os.symlink(".", os.path.join(self.paths["p2"], "self"))
         self.threads0 = set(threading.enumerate())
         self.fds0 = monitors.fd_set()
         self.exc_mark = monitors.exc_mark()
@@ -86,7 +95,7 @@ class Case:
 
         def fn():
             if op == "schedule":
-                w = obs.schedule(self.h, self.paths[arg], recursive=(arg != "p1"))
+                w = obs.schedule(self.h, self.paths[arg], recursive=(arg != "p1"), **({"follow_symlink": True} if self.follow and arg == "p2" else {}))
                 self.watches[arg] = w
             elif op == "unschedule":
                 obs.unschedule(self.watches.get(arg) or _dummy_watch(self.paths[arg]))
